@@ -74,7 +74,8 @@ Print Assumptions C06_ipcp_wire_ack.
 (* ---- the session adopts only the assigned address ------------------------------------------- *)
 
 (* Repaired behaviour.  For every AAA answer (none, usable, 0.0.0.0, an IPv6 literal, anything) and every
-   history of subscriber Configure-Requests (arbitrary bytes) and Configure-Acks: the assigned address is
+   history of subscriber Configure-Requests (arbitrary bytes), Configure-Acks, Configure-Naks and
+   Configure-Rejects for our own request (arbitrary bytes): the assigned address is
    usable, never changes, and the session's IPv4 address equals it after every event — in particular
    whenever IPCP comes up. *)
 Theorem C06_adopted_is_assigned :
@@ -85,6 +86,13 @@ Theorem C06_adopted_is_assigned :
   to4o (s_addr s) = ic_assigned (s_cfg s).
 Proof. exact adopted_is_assigned. Qed.
 Print Assumptions C06_adopted_is_assigned.
+
+(* In every variant no packet of the subscriber changes the assigned address: Ack/Nak contents only
+   overwrite the BNG's own DNS (and local address) values. *)
+Theorem C06_assigned_immutable :
+  forall fl es s, ic_assigned (s_cfg (sess_run fl s es)) = ic_assigned (s_cfg s).
+Proof. exact sess_run_assigned. Qed.
+Print Assumptions C06_assigned_immutable.
 
 (* startNCP never leaves IPCP without a usable assigned address (the "unassigned" branch of
    ProcessConfReq, in which any non-zero proposal is acknowledged, is unreachable from a session). *)
@@ -234,7 +242,8 @@ Print Assumptions C06_ipcp_nonvacuous.
 
 Example C06_session_nonvacuous :
   let s := sess_run repaired (sess_start repaired (Some (v4prefix ++ [10;0;0;5])%N))
-             [EvReq 1 [3;6;0;0;0;0]; EvReq 2 []; EvAck; EvReq 3 [3;6;10;0;0;5]; EvReq 4 [3;6;10;0;0;5]; EvAck]%N in
+             [EvReq 1 [3;6;0;0;0;0]; EvReq 2 []; EvAck; EvNak [3;6;6;6;6;6;129;6;1;1;1;1]; EvRej [129;6;1;1;1;1];
+              EvReq 3 [3;6;10;0;0;5]; EvReq 4 [3;6;10;0;0;5]; EvAckW [3;6;6;6;6;6]]%N in
   s_open s = true /\ s_fsm s = 9%N /\ to4o (s_addr s) = Some [10;0;0;5]%N /\
   pp_addr (s_peer s) = Some [10;0;0;5]%N.
 Proof. vm_compute. repeat split. Qed.
